@@ -324,7 +324,11 @@ class C18(Check):
     def finalize(self, tier, st):
         self._cleanup()
         n = st.notes.get("intree-binary-mismatch")
-        if n:
+        if n and st.violations:
+            # a freshly compiled speedups.c already misbehaves in this process (it may even have damaged interpreter-wide
+            # objects such as the cached one-byte bytes): the stale-binary diagnosis would only mask that violation
+            st.note("intree-binary-mismatch-ignored-after-violation", n)
+        elif n:
             st.error("the in-tree binary tornado/speedups*.so that tornado.util selected disagrees "
                      "with the definition in %d cases (stale build? rebuild it: setup.py build_ext "
                      "--inplace); e.g. %s" % (n, st.extra.get("intree_binary_mismatch_example")))
